@@ -252,3 +252,78 @@ func drawLabel(t *rapid.T) LabelCase {
 func TestLabelsTTLAge(t *testing.T) {
 	subLabel.CheckSalt(t, 2, ev.N(800, 80000), drawLabel)
 }
+
+// ---------------------------------------------------------------- (iv) Age after a real wait
+
+type AgeCase struct {
+	Backend   string `json:"backend"`
+	Transport string `json:"transport"`
+	OriginAge []int  `json:"origin_age"` // per resource: Age header the origin sends (-1 = none)
+	WaitMs    int    `json:"wait_ms"`
+}
+
+var subAge = ev.Register("age-after-wait",
+	"2-8 resources (origin sends Date, optionally its own Age: N) are stored, the harness waits 1.2-2.4 s, then requests them again (HITs, lifetime one hour); oracle: Age = origin Age + resident time within +-1 s (+1 s for the Date rounding), ttl = 3600 - resident within +-2; non-trivial = an origin Age was given or the wait exceeded 2 s; distinct by case",
+	func(c AgeCase, o *ev.Obs) *ev.Failure {
+		site := origin.NewSite()
+		for i, a := range c.OriginAge {
+			v := origin.Version{Ver: 1, Len: 100 + i, ETag: fmt.Sprintf(`"a%d"`, i)}
+			if a >= 0 {
+				v.Headers = append(v.Headers, origin.HV{K: "Age", V: strconv.Itoa(a)})
+			}
+			site.Set(fmt.Sprintf("/a%d", i), fmt.Sprintf("a%d", i), v)
+		}
+		org := origin.New(site.Handler())
+		defer org.Close()
+		env := px.New(px.Opts{Backend: c.Backend, DefaultMaxAge: time.Hour})
+		defer env.Close()
+		stored := make([]time.Time, len(c.OriginAge))
+		for i := range c.OriginAge {
+			r, err := env.Via(c.Transport, px.Req{Method: "GET", Host: org.Addr(), Target: fmt.Sprintf("/a%d", i), ReqID: fmt.Sprintf("s%d", i)})
+			if err != nil || r.Status != 200 {
+				return ev.Failf("age.harness", "store: %v", err)
+			}
+			stored[i] = r.T1
+		}
+		time.Sleep(time.Duration(c.WaitMs) * time.Millisecond)
+		o.NonTrivial = c.WaitMs >= 2000
+		for i, a := range c.OriginAge {
+			if a >= 0 {
+				o.NonTrivial = true
+			}
+			r, err := env.Via(c.Transport, px.Req{Method: "GET", Host: org.Addr(), Target: fmt.Sprintf("/a%d", i), ReqID: fmt.Sprintf("h%d", i)})
+			if err != nil || r.Status != 200 || r.Header.Get("X-Cache") != "HIT" {
+				return ev.Failf("age.not-a-hit", "resource %d after %d ms: %v / %v", i, c.WaitMs, err, r)
+			}
+			resident := r.T0.Sub(stored[i]).Seconds()
+			base := 0
+			if a > 0 {
+				base = a
+			}
+			age, aerr := strconv.Atoi(r.Header.Get("Age"))
+			lo, hi := float64(base)+resident-1.2, float64(base)+resident+2.2
+			if aerr != nil || float64(age) < lo || float64(age) > hi {
+				return ev.Failf("label.age-inconsistent:after-wait", "resource %d: origin Age %d, resident %.2f s: Age header %q not in [%.1f, %.1f]", i, a, resident, r.Header.Get("Age"), lo, hi)
+			}
+			m := reTTL.FindStringSubmatch(r.Header.Get("Cache-Status"))
+			if m == nil {
+				return ev.Failf("label.ttl-missing", "Cache-Status %q", r.Header.Get("Cache-Status"))
+			}
+			ttl, _ := strconv.Atoi(m[1])
+			if float64(ttl) < 3600-resident-2.2 || float64(ttl) > 3600-resident+1.2 {
+				return ev.Failf("label.ttl-inconsistent:after-wait", "resource %d: lifetime 3600 s, resident %.2f s, ttl=%d", i, resident, ttl)
+			}
+		}
+		return nil
+	})
+
+func TestAgeAfterWait(t *testing.T) {
+	subAge.CheckSalt(t, 4, ev.N(4, 200), func(t *rapid.T) AgeCase {
+		c := AgeCase{Backend: rapid.SampledFrom([]string{"memory", "file"}).Draw(t, "backend"), Transport: rapid.SampledFrom([]string{"plain", "tunnel"}).Draw(t, "transport"),
+			WaitMs: rapid.SampledFrom([]int{1200, 2100, 2400}).Draw(t, "wait")}
+		for i := rapid.IntRange(2, 8).Draw(t, "n"); i > 0; i-- {
+			c.OriginAge = append(c.OriginAge, rapid.SampledFrom([]int{-1, -1, 0, 1, 30, 100000}).Draw(t, "age"))
+		}
+		return c
+	})
+}
